@@ -489,7 +489,22 @@ func (fc *FnCtx) inBounds(i, n string, v Val) string {
 func (fc *FnCtx) sliceElem(st *State, s Val, i string, elem types.Type) string {
 	key, sort := fc.elemsKey(elem)
 	e := fc.heapGet(st, key, sort)
+	if fc.cs != nil && fc.cs.IndexElt {
+		// s[i] as an application with i as its own argument: quantifier patterns over s[i] then match any
+		// index expression (E-matching is syntactic; (select c (+ off ?i)) does not match (select c (+ off n 4)))
+		return app(fc.eltFn(elem), app("select", e, app("s-arr", s.T)), app("s-off", s.T), i)
+	}
 	return app("select", app("select", e, app("s-arr", s.T)), fc.addIdx(app("s-off", s.T), i))
+}
+
+// eltFn declares elt$T(content, base, i) == content[base+i].
+func (fc *FnCtx) eltFn(elem types.Type) string {
+	es := fc.sortOf(elem)
+	fn := sym("elt$" + fc.typeName(elem))
+	I := fc.I()
+	fc.declareOnce(fn, fmt.Sprintf("(declare-fun %s ((Array %s %s) %s %s) %s)", fn, I, es, I, I, es))
+	fc.declareAxiomOnce(fn+".def", fn, fmt.Sprintf("(assert (forall ((c (Array %s %s)) (b %s) (i %s)) (! (= (%s c b i) (select c %s)) :pattern ((%s c b i)))))", I, es, I, I, fn, fc.addIdx("b", "i"), fn))
+	return fn
 }
 
 func (fc *FnCtx) evalIndex(st *State, x *ast.IndexExpr, commaOk bool) []Val {
